@@ -15,7 +15,7 @@ Separate Extraction
   Model.Hist.run_hist Model.Hist.observe Model.Hist.run_op
   Model.Ops.two_col_widths Model.Options.with_defaults Model.Options.options_eqb Check.Select.commit_expected Model.Util.range_to_indexes
   Model.Manip.is_space
-  Check.Common.seam_safe Check.Common.contains Check.Common.pieces_safe Check.Common.plain_cfg Check.Common.norm
+  Check.Common.seam_safe Check.Common.contains Check.Common.pieces_safe Check.Common.plain_cfg Check.Common.norm Check.Common.norm1
   Check.Select.guard_C04 Check.Select.check_C04 Check.Select.check_charcount
   Check.Select.guard_C09 Check.Select.check_C09
   Check.Select.guard_C10 Check.Select.check_C10_sel Check.Select.check_linecount Check.Select.apply_expected
